@@ -479,6 +479,56 @@ class GhostPos(object):
         if k == "call":
             cn = X.callee_name(n) or ""
             args = n["ch"][1:]
+            taken_ = []
+            for a in args:
+                s = X.strip(a)
+                if s is not None and s.get("k") == "un" and s.get("op") == "&":
+                    t = X.strip(s["ch"][0])
+                    if t is not None and t.get("k") == "ref" and t.get("d") in self.intvars:
+                        taken_.append(t["d"])
+            if taken_:
+                # a helper that reports through the address of an integer local: replayed path by path when it is a small
+                # loop-free function of this unit (la/inout.py), otherwise the local is unknown afterwards
+                from . import inout
+                g_ = self.fn.unit.functions.get(cn) if hasattr(self.fn, "unit") else None
+                summ_ = inout.summary(g_) if g_ is not None else None
+                if summ_:
+                    outs = []
+                    for tests, stores, _ret in summ_:
+                        st = cons
+                        for c_, t_ in tests:
+                            st = self.refine(st, inout.bind(c_, g_, args), t_)
+                            if st is None:
+                                break
+                        if st is None:
+                            continue
+                        vals = {}
+                        okp = True
+                        for pd_, rhs_ in stores.items():
+                            j_ = [i_ for i_, pp_ in enumerate(g_.params) if pp_["d"] == pd_][0]
+                            sa_ = X.strip(args[j_]) if j_ < len(args) else None
+                            ta_ = X.strip(sa_["ch"][0]) if sa_ is not None and sa_.get("k") == "un" and sa_.get("op") == "&" else None
+                            if ta_ is None or ta_.get("d") not in self.intvars:
+                                okp = False
+                                break
+                            vals[ta_["d"]] = self.lin(inout.bind(rhs_, g_, args))
+                        if not okp:
+                            outs = None
+                            break
+                        for d_, v_ in vals.items():
+                            st = self.assign_sym(st, "v%d" % d_, v_)
+                        outs.append(st)
+                    if outs:
+                        res = outs[0]
+                        for o in outs[1:]:
+                            res = self.join(res, o, False)
+                        return res
+                    if outs is not None and not outs:
+                        return cons
+                out = cons
+                for d_ in taken_:
+                    out = self.assign_sym(out, "v%d" % d_, None)
+                cons = out
             if args and self.is_self(args[0]):
                 if cn in self.mutators:
                     out = self.havoc_ptrs(cons)
